@@ -366,3 +366,15 @@ Proof.
   - exists 0. vm_compute. discriminate.
   - exists 1. cbn [recs firstn]. rewrite firstn_nil. vm_compute. discriminate.
 Qed.
+
+(* the error shutdown: flush everything, then truncate any log whose records are all stored *)
+Lemma error_shutdown_accepted w n : (t w <= n <= st w)%nat ->
+  exists w1 w2, wstep w EFlush = Some w1 /\ wstep w1 (ETruncate n) = Some w2.
+Proof.
+  intros H. eexists. cbn [wstep]. 
+  destruct (truncate_after_flush {| recs := recs w; s := s w; st := st w; k := k w; t := t w; C := C w;
+                      D := fun l => if (fun _ => true) l then C w l else D w l; dirtyl := filter (fun l => negb ((fun _ => true) l)) (dirtyl w) |} n) as [w2 Hw2].
+  - exact H.
+  - cbn [dirtyl]. induction (dirtyl w) as [|a l IH]; [reflexivity|exact IH].
+  - exists w2. split; [reflexivity|exact Hw2].
+Qed.
